@@ -30,10 +30,12 @@ PROP = dict(
         "is Run), buffered channels, select picks any ready case, deferred unlock runs on panic",
     ],
     assumptions=[
-        "time.After firing, context cancellation and the ticker are environment actions of the model (enabled "
-        "whenever the thread is parked in its select); real timers and the Go scheduler are outside the model, so "
-        "'returns an error once its timeout has elapsed' is proved as 'err only after the timer/ctx action' plus "
-        "deadlock freedom, not as a bound in seconds",
+        "the timeout of a waiter is state of the model (armed when the wait begins; the environment action "
+        "wDeadline = 'the timeout has elapsed' makes it due; only then can the select take the timer case; the "
+        "repaired code never re-arms it, the original did: timer_rearm_witness). How much real time passes between "
+        "the deadline and the return is the Go scheduler's, outside the model: it is measured on the real code by "
+        "the oracle go.wait.deadline (tolerance T/2 + 10x the timer lateness observed by a canary)",
+        "context cancellation and the ticker are environment actions, enabled whenever the thread is in its select",
         "there is no instant at which all heads are read together: 'the newest head known to the pool' means the "
         "newest head the refresh has read (select_spec_concurrent); the original two-read updateBest violated even "
         "that (select_two_pass_witness, fixed in the repo)",
@@ -51,11 +53,17 @@ PROP = dict(
         "seqno < 2^32-1 (select_wrap_witness: negation at 2^32-1, replayed on Go, fixed in the repo)",
         "liveness is split in two theorems: wait_success_spec (the result becomes ok) and wait_returns (the deferred "
         "unsubscribe gets the pool lock: weak fairness of Run and of subscribing waiters, strong fairness of the "
-        "waiter's own lock acquisition); no example of a fair infinite execution is constructed (the hypotheses are "
-        "the usual fairness assumptions, satisfiable by round-robin scheduling)",
-        "wait_success_spec starts when notifySubscribers/switchTo iterates with the head (or the head is in the "
-        "channel); the step before (Run receives the update and takes the read lock while the connection is still "
-        "the best one) is covered by no_deadlock + subscribe_atomic, not by a separate leads-to theorem",
+        "waiter's own lock acquisition); all fairness assumptions are hypotheses of the theorems (WeakFair / "
+        "StrongFair over an explicit Exec), and both theorems are instantiated on explicit fair executions "
+        "(Lemmas/PoolSMFairExample.lean: liveness_nonvacuous, timeout_nonvacuous)",
+        "end to end the success clause is two theorems, not one leads-to statement: no_lost_wakeup (state invariant: "
+        "best connection at/after the target => a head >= target is in the channel, handed out, or still in the "
+        "pipeline setter -> channel -> Run) and wait_success_spec (from 'in the channel / handed out' to ok under "
+        "fairness); that the pipeline stages drain is publish_not_dropped + no_deadlock, not a fairness theorem of "
+        "its own; while a head is still in the pipeline the best connection may change (then the new one's head is "
+        "offered instead)",
+        "NoDeadlock is global (some thread can move), not per thread; SetMasterHead callers have no liveness "
+        "theorem of their own beyond publish_not_dropped (their send is enabled whenever the channel has room)",
         "eventually_notified: a head >= target offered to a waiter is in its channel or about to be put there; that "
         "the waiter's select then picks the channel rather than a simultaneously ready timer/ctx is Go's choice "
         "(either outcome is allowed by the model)",
@@ -70,10 +78,14 @@ PROP = dict(
                "when there is none (select_spec); the original uint32 test violates it at seqno 2^32-1 "
                "(select_wrap_witness, decide). Wait protocol: theorems over a transition system with ANY number of "
                "waiters, SetMasterHead callers and connections and ALL interleavings, by inductive invariants: "
-               "no_deadlock, wait_outcomes, eventually_notified, subscribe_short_circuit, subscribe_atomic, "
+               "no_deadlock, wait_outcomes, offered_head_not_lost, no_lost_wakeup, timeout_bounded, "
+               "subscribe_short_circuit, subscribe_atomic, "
                "publish_not_dropped, select_spec_concurrent (the refresh modelled read by read against moving heads) "
-               "and the liveness theorem wait_success_spec (fair executions) for the repaired code; the "
-               "original code deadlocks (two decide-checked counterexample traces, both replayed on the real "
+               "and the liveness theorems wait_success_spec / wait_returns (fair executions; instantiated on explicit "
+               "fair executions: liveness_nonvacuous, timeout_nonvacuous) for the repaired code; "
+               "indices_in_range shows that no getD/set default of the model is reachable; the "
+               "original code deadlocks, re-arms its timeout, loses a wake-up on a switch, reads heads and round-trip "
+               "times twice (decide-checked counterexample traces, all replayed on the real "
                "goroutines and repaired in the repo). Tie checked on every run: the full 17.2 M-point selection "
                "grid through the real updateBest against the proved specification, scripted wait scenarios (quiescent "
                "and gate-forced non-quiescent ones) on the real goroutines against the transition system step by "
